@@ -87,9 +87,15 @@ func c12Run(c *fw.Ctx, idx int, sc c12Scenario) {
 			old := conns[k-1]
 			switch sc.oldEvent[k-1] {
 			case "ping":
+				// wait for the answer (or the disconnection): a late PINGRESP must not be mistaken
+				// for the answer to the keep-alive exchange that is judged further down
+				from := old.NumEvents()
 				old.Send(kit.EncPingReq())
+				old.WaitFor(from, 5*time.Second, func(e kit.Event) bool { return e.Pkt.Type == kit.PINGRESP })
 			case "subscribe":
+				from := old.NumEvents()
 				old.Send(kit.EncSubscribe(77, []string{"c12/old"}, []int{0}))
+				old.WaitFor(from, 5*time.Second, func(e kit.Event) bool { return e.Pkt.Type == kit.SUBACK })
 			case "disconnect":
 				old.Send(kit.EncDisconnect())
 			case "close":
